@@ -508,9 +508,13 @@ class ObservableResource(Resource, metaclass=abc.ABCMeta):
         # not work so far anyway).
 
         servobs = ServerObservation()
-        await self.add_observation(pipe.request, servobs)
 
         try:
+            # (inside the try already: a resource may accept the observation
+            # and then take its time, and whatever ends the registration in
+            # the meantime needs to run its cancellation callback)
+            await self.add_observation(pipe.request, servobs)
+
             first_response = await self.render(pipe.request)
 
             if (
